@@ -8,6 +8,7 @@ import (
 	"fmt"
 	"net"
 	"runtime"
+	"strings"
 	"sync"
 	"time"
 
@@ -211,15 +212,20 @@ func (c *rpcClient) NFSPROC3_COMMIT(a nt.COMMIT3args) (r nt.COMMIT3res) {
 
 type CallOutcome struct {
 	Panic string // non-empty if the call panicked
-	Hung  bool   // the call did not return within the watchdog
+	Hung  bool   // the call did not return and there is evidence that it never will (see Guard)
+	Slow  bool   // the call did not return in time but shows no sign of being stuck: inconclusive, not a verdict
 	Stack string
+	Why   string
 }
 
 func (o CallOutcome) Bad() bool { return o.Panic != "" || o.Hung }
 
 func (o CallOutcome) String() string {
 	if o.Hung {
-		return "the call did not return (watchdog); goroutines:\n" + o.Stack
+		return "the call does not return (" + o.Why + "); goroutines:\n" + o.Stack
+	}
+	if o.Slow {
+		return "the call was too slow for the harness (machine overloaded?); not judged"
 	}
 	if o.Panic != "" {
 		return "the call panicked: " + o.Panic + "\n" + o.Stack
@@ -227,10 +233,22 @@ func (o CallOutcome) String() string {
 	return "returned"
 }
 
-// Guard runs f on its own goroutine with a watchdog.
-func Guard(watchdog time.Duration, f func()) CallOutcome {
+// Guard runs f on its own goroutine with a watchdog.  A wall-clock time-out alone is never a
+// verdict: after the watchdog the goroutine is sampled once a second, and the call is declared
+// hung only if it sits in the same blocked state (lock, condition, channel) for 10 consecutive
+// samples, or if it has begun an absurd number of transactions (livelock).  Otherwise the harness
+// keeps waiting (a slow machine), up to 5 more minutes, and then gives up without a verdict.
+func Guard(watchdog time.Duration, f func()) CallOutcome { return GuardTxn(watchdog, f, nil) }
+
+func GuardTxn(watchdog time.Duration, f func(), txnCount func() int64) CallOutcome {
 	done := make(chan CallOutcome, 1)
+	gidc := make(chan uint64, 1)
+	var txn0 int64
+	if txnCount != nil {
+		txn0 = txnCount()
+	}
 	go func() {
+		gidc <- goid()
 		defer func() {
 			if r := recover(); r != nil {
 				buf := make([]byte, 8000)
@@ -241,18 +259,79 @@ func Guard(watchdog time.Duration, f func()) CallOutcome {
 		f()
 		done <- CallOutcome{}
 	}()
+	gid := <-gidc
 	select {
 	case o := <-done:
 		return o
 	case <-time.After(watchdog):
+	}
+	same, last := 0, ""
+	for extra := 0; extra < 300; extra++ {
+		select {
+		case o := <-done:
+			return o
+		case <-time.After(time.Second):
+		}
 		buf := make([]byte, 1<<20)
 		buf = buf[:runtime.Stack(buf, true)]
-		s := string(buf)
-		if len(s) > 30000 {
-			s = s[:30000]
+		dump := string(buf)
+		state, frames := goroutineBlock(dump, gid)
+		blocked := false
+		for _, k := range []string{"sync.Cond.Wait", "sync.Mutex.Lock", "semacquire", "chan receive", "chan send", "select", "sync.WaitGroup.Wait", "IO wait", "sync.RWMutex"} {
+			if strings.Contains(state, k) {
+				blocked = true
+			}
 		}
-		return CallOutcome{Hung: true, Stack: s}
+		if blocked && frames == last {
+			same++
+		} else {
+			same = 0
+		}
+		last = frames
+		if len(dump) > 30000 {
+			dump = dump[:30000]
+		}
+		if same >= 10 {
+			return CallOutcome{Hung: true, Stack: dump, Why: fmt.Sprintf("blocked in the same place for %d s after a %v watchdog: %s", same, watchdog, state)}
+		}
+		if txnCount != nil && txnCount()-txn0 > 200000 {
+			return CallOutcome{Hung: true, Stack: dump, Why: fmt.Sprintf("it has begun %d transactions and is still retrying", txnCount()-txn0)}
+		}
 	}
+	return CallOutcome{Slow: true}
+}
+
+// goroutineBlock extracts the header state and the frames of goroutine gid from a full dump.
+func goroutineBlock(dump string, gid uint64) (state, frames string) {
+	hdr := fmt.Sprintf("goroutine %d [", gid)
+	i := strings.Index(dump, hdr)
+	if i < 0 {
+		return "gone", ""
+	}
+	rest := dump[i:]
+	if j := strings.Index(rest, "\n\n"); j >= 0 {
+		rest = rest[:j]
+	}
+	nl := strings.Index(rest, "\n")
+	if nl < 0 {
+		return rest, ""
+	}
+	state = rest[len(hdr)-1 : nl]
+	// drop the ", N minutes" part, which changes
+	if k := strings.Index(state, ","); k >= 0 {
+		state = state[:k] + "]"
+	}
+	// frames: function names only (argument values and pcs change)
+	var fs []string
+	for _, l := range strings.Split(rest[nl+1:], "\n") {
+		if !strings.HasPrefix(l, "\t") {
+			if p := strings.Index(l, "("); p > 0 {
+				l = l[:p]
+			}
+			fs = append(fs, l)
+		}
+	}
+	return state, strings.Join(fs, ";")
 }
 
 // RootFH asks the MOUNT protocol for the root handle.
